@@ -65,12 +65,37 @@ func stuck(substr string) string {
 func waitAll(wg *sync.WaitGroup, d time.Duration) bool {
 	done := make(chan struct{})
 	go func() { wg.Wait(); close(done) }()
-	select {
-	case <-done:
-		return true
-	case <-time.After(d):
-		return false
+	return waitChan(done, d)
+}
+
+// heartbeat: one tick per millisecond of CPU time this process gets. A bound that is exceeded while the heartbeat itself
+// (nearly) stood still - overloaded machine, world stopped - says nothing about the code under test: the wait starts
+// over (the driver's own time limit ends a process that never comes back: inconclusive, not a violation).
+var beats atomic.Int64
+
+func init() {
+	go func() {
+		for {
+			time.Sleep(time.Millisecond)
+			beats.Add(1)
+		}
+	}()
+}
+
+// waitChan waits for ch to be closed, for at most d of time in which this process was actually running.
+func waitChan(ch <-chan struct{}, d time.Duration) bool {
+	for attempt := 0; attempt < 60; attempt++ {
+		b0, t0 := beats.Load(), time.Now()
+		select {
+		case <-ch:
+			return true
+		case <-time.After(d):
+		}
+		if float64(beats.Load()-b0) >= 0.6*float64(time.Since(t0)/time.Millisecond)/1.2 {
+			return false
+		}
 	}
+	return false
 }
 
 // ---- (a) topics -------------------------------------------------------------------
